@@ -57,8 +57,8 @@ Qed.
 Lemma open_dgram_authentic k d ms : open_dgram (Some k) d = Ok ms -> exists p, d_body d = Sealed k (d_hdr d) p.
 Proof.
   unfold open_dgram. destruct (d_body d) as [k' sh p| |]; simpl; try discriminate.
-  destruct ((k =? k') && header_eqb sh (d_hdr d) && (h_len (d_hdr d) =? len p)) eqn:E; simpl; [|discriminate].
-  intros _. apply andb_true_iff in E. destruct E as [E _]. apply andb_true_iff in E. destruct E as [E1 E2].
+  destruct ((k =? k') && header_eqb sh (d_hdr d)) eqn:E; simpl; [|discriminate].
+  intros _. apply andb_true_iff in E. destruct E as [E1 E2].
   apply header_eqb_eq in E2. assert (k = k') by lia. subst. eauto.
 Qed.
 
